@@ -20,7 +20,7 @@ OFF_MAX = 64800
 
 META = {
     "property": "C07",
-    "proof_modules": ["PyodaProofs.C07", "PyodaProofs.C07b"],
+    "proof_modules": ["PyodaProofs.C07", "PyodaProofs.C07b", "PyodaProofs.C07Stepped", "PyodaProofs.C07Reformat", "PyodaProofs.C07Instances"],
     "drivers": ["drv_text"],
     "theorems": [
         "Pyoda.C07.parseDigits_leftPad",
@@ -45,6 +45,29 @@ META = {
         "Pyoda.C07.iso_date_format_injective",
         "Pyoda.C07.iso_time_general_reformat",
         "Pyoda.C07.iso_time_general_parsed_chars",
+        "Pyoda.C07.formatNum_eq",
+        "Pyoda.C07.parseField_numOut",
+        "Pyoda.C07.truncOut_cases",
+        "Pyoda.C07.step_roundtrip",
+        "Pyoda.C07.steps_roundtrip",
+        "Pyoda.C07.lastSafe_sound",
+        "Pyoda.C07.follow_sound",
+        "Pyoda.C07.delimited_stepsOK",
+        "Pyoda.C07.stepped_roundtrip",
+        "Pyoda.C07.pattern_roundtrip",
+        "Pyoda.C07.isoTime_compiles",
+        "Pyoda.C07.isoTime_delimited",
+        "Pyoda.C07.isoDate_compiles",
+        "Pyoda.C07.isoDate_delimited",
+        "Pyoda.C07.offsetLong_compiles",
+        "Pyoda.C07.offsetLong_delimited",
+        "Pyoda.C07.isoTime_generic_roundtrip",
+        "Pyoda.C07.parseDigits_fixed_inv",
+        "Pyoda.C07.parseField_fixed_inv",
+        "Pyoda.C07.parseSteps_frame",
+        "Pyoda.C07.reformat_idempotent",
+        "Pyoda.C07.isoDate_generic_roundtrip",
+        "Pyoda.C07.offsetLong_generic_roundtrip",
     ],
     "trusted_base": [
         "float step of _ValueCursor._parse_fraction (int(result * math.pow(10.0, scale - count))) is exact for at most 9 digits (products below 2^53); sampled by suite text.num",
@@ -52,7 +75,8 @@ META = {
     ],
     "partial": [
         "the theorems cover the modelled subset only: numeric primitives and the built-in ISO patterns (LocalDatePattern.iso, LocalTimePattern.extended_iso/long_extended_iso/general_iso, LocalDateTimePattern.extended_iso/general_iso/bcl_round_trip, InstantPattern.extended_iso/general over date-time fields, OffsetPattern g/G in the invariant culture) as straight-line functions",
-        "the step language beyond those patterns (custom patterns, text months/days, eras, calendars, am/pm, embedded patterns, Duration and AnnualDate patterns), ICU-derived culture data and non-ASCII case folding are covered by the direct oracles only",
+        "generic engine (PyodaModel/Text/Stepped, Engine, Buckets; tied to the code by suites text.pat.compile/fmt/parse): stepped_roundtrip and pattern_roundtrip hold for every culture record and every Delimited list of literal / padded numeric / fraction (f, F, .F, ;F) / ';' / sign steps of LocalTime, LocalDate (ISO) and Offset patterns; 'Representable' is stated as: the value is determined by the projection of its fields onto the slots the pattern sets; it is discharged for LocalTimePattern.extended_iso, LocalDatePattern.iso and the long Offset pattern (isoTime/isoDate/offsetLong_generic_roundtrip), other patterns instantiate it case by case; the share of generated patterns for which the decidable criterion Delimited holds is recorded under notes",
+        "NOT covered by theorems (correspondence and direct oracles only): text steps (am/pm designators, month and day names: longest case-insensitive match), era and calendar fields, embedded patterns, LocalDateTime/Instant/Duration/AnnualDate pattern parsers, non-ASCII case folding, ICU culture data extraction; reformat_idempotent (generic engine) covers patterns of literals and full-width non-negative numeric fields with distinct slots at the level of steps and buckets (the accessors must return the parsed field values); variable-width fields, fractions, signs and the sign-carrying 'uuuu' are excluded (negative zero, optional parts)",
         "Instant/LocalDate day-number <-> (year, month, day) conversion is outside the Text model (the harness passes date fields)",
     ],
     "rule": "distinct = distinct (pattern, culture, value) triple or op line; non-trivial = the pattern was created and the value formatted",
